@@ -25,7 +25,7 @@ def valid_events(evs):
 
 @spec
 def whole_ms(evs):
-    return all(evs[i].duration % timedelta(milliseconds=1) == timedelta(0) for i in range(len(evs)))
+    return all(ms_aligned(evs[i].duration) for i in range(len(evs)))
 
 
 @spec
@@ -51,7 +51,7 @@ contract(
     M + "_replace_event_period",
     params={"event": "Event", "period": "Timeslot"},
     returns="Event",
-    requires=["period.start.microsecond % 1000 == 0"],
+    requires=["ms_aligned(period.start)"],
     ensures=[
         "fresh(result) and fresh(result.data) and result is not event",
         "result.timestamp == period.start",
@@ -286,7 +286,7 @@ contract(
                 "len(S) == 0 or (len(events) == len(S) - 1 and len(merged_events) >= 1)",
                 "all(events[i] is S[i + 1] for i in range(len(events)))",
                 "all(allocated(merged_events[j]) and merged_events[j].duration >= timedelta(0) "
-                "    and merged_events[j].timestamp.microsecond % 1000 == 0 for j in range(len(merged_events)))",
+                "    and ms_aligned(merged_events[j].timestamp) for j in range(len(merged_events)))",
                 "all(end(merged_events[j]) < merged_events[j + 1].timestamp for j in range(len(merged_events) - 1))",
                 "len(S) == 0 or merged_events[len(merged_events) - 1].timestamp <= S[k].timestamp",
                 "len(wit) == k + 1",
